@@ -171,11 +171,16 @@ type scenario struct {
 	DB     *dbSpec
 	Pack   string
 	Size   uint
+	// Pre is a fixed history that precedes every explored one (the search
+	// then starts from a non-initial state).
+	Pre []op
 }
 
 func (sc *scenario) ops(quick bool) (ops []op) {
 	names := []string{pool.Host, pool.Collider, pool.Child, pool.Parent, pool.Private6, pool.Lan5}
-	if sc.Switch {
+	if len(sc.Pre) > 0 {
+		names = []string{pool.Child, pool.Parent, pool.Host}
+	} else if sc.Switch {
 		names = []string{pool.Host, pool.Collider, pool.Child}
 	} else if !quick {
 		names = append(names, pool.ParentCollider, pool.Other)
@@ -189,7 +194,11 @@ func (sc *scenario) ops(quick bool) (ops []op) {
 	for _, s := range []int{1, secs - 1, secs + 1} {
 		ops = append(ops, op{Sc: sc.Label, Kind: "adv", Secs: s})
 	}
-	if sc.Switch {
+	if len(sc.Pre) > 0 {
+		for _, d := range []string{"empty", "parent"} {
+			ops = append(ops, op{Sc: sc.Label, Kind: "db", DB: d})
+		}
+	} else if sc.Switch {
 		for _, d := range switchDBs {
 			ops = append(ops, op{Sc: sc.Label, Kind: "db", DB: d})
 		}
@@ -219,6 +228,13 @@ func buildScenarios() (out []*scenario) {
 		for _, pk := range []string{packSingle, packEach} {
 			out = append(out, &scenario{Label: fmt.Sprintf("switch:pack=%s:cache=%d", pk, sz), Switch: true, DB: dbByKey["empty"], Pack: pk, Size: sz})
 		}
+	}
+	// The parent domain was checked while unlisted and has been listed since:
+	// entries of one name's prefixes now expire at different instants.
+	for _, pk := range []string{packSingle, packEach} {
+		l := fmt.Sprintf("switch-after-parent-check:pack=%s:cache=0", pk)
+		out = append(out, &scenario{Label: l, Switch: true, DB: dbByKey["empty"], Pack: pk, Size: 0,
+			Pre: []op{{Sc: l, Kind: "chk", Name: pool.Parent}, {Sc: l, Kind: "db", DB: "parent"}}})
 	}
 	return out
 }
@@ -324,8 +340,11 @@ func (sc *scenario) exec(hist []op) (st lib.Step) {
 			sc.Label, cacheTTL, sc.Size, base.UTC().Format(time.RFC3339Nano), jsonStr(pool), jsonStr(hist))
 		return st
 	}
+	if len(sc.Pre) > 0 {
+		hist = append(append([]op{}, sc.Pre...), hist...)
+	}
 	for i, o := range hist {
-		last := i == len(hist)-1
+		last := i == len(hist)-1 && i >= len(sc.Pre)
 		switch o.Kind {
 		case "adv":
 			vtime.AdvanceVirtual(time.Duration(o.Secs) * time.Second)
@@ -793,7 +812,7 @@ func run(c *lib.Ctx) {
 	if !c.Quick() {
 		depthFixed, depthSwitch = 6, 6
 	}
-	c.Note("bfs_bounds", fmt.Sprintf("%d scenarios (25 databases x 2 answer packings x cache size {unlimited,%dB,%dB} with a fixed database (the one database whose answers span two prefixes: unlimited cache only), 6 with database switches); operations check(name) over the pool, advance clock by {1s, CacheTime-1s, CacheTime+1s}, switch database (switch scenarios only); depth %d (fixed) / %d (switch)", len(labels), smallCache, tinyCache, depthFixed, depthSwitch))
+	c.Note("bfs_bounds", fmt.Sprintf("%d scenarios (25 databases x 2 answer packings x cache size {unlimited,%dB,%dB} with a fixed database (the one database whose answers span two prefixes: unlimited cache only), 6 with database switches, 2 more that start after [check(parent); parent gets listed]); operations check(name) over the pool, advance clock by {1s, CacheTime-1s, CacheTime+1s}, switch database (switch scenarios only); depth %d (fixed) / %d (switch)", len(labels), smallCache, tinyCache, depthFixed, depthSwitch))
 	// Scenarios are dealt to shard processes; inside one scenario the BFS is
 	// single-threaded because the virtual clock is process-global.
 	shardI, shardN := c.ShardI, c.ShardN
